@@ -6,353 +6,9 @@ handed to `Deliver` is handed to the link at most once per delivery round
 (between two `ResetPackets` of its mailbox), and never again once it has been
 acked.  `ResetPackets` re-delivers only packets that are still un-acked.
 -/
-import LndModel.C07.Mailbox
-import LndModel.C07.Lemmas
+import LndModel.C07.MailboxLemmas
 
 namespace LndModel.C07
-
-theorem cnt_append (u : Nat) (a b : List Pkt) : cnt u (a ++ b) = cnt u a + cnt u b := by
-  simp [cnt, List.countP_append]
-
-theorem cnt_nil (u : Nat) : cnt u [] = 0 := rfl
-
-theorem cnt_single (u : Nat) (p : Pkt) : cnt u [p] = if p.uid = u then 1 else 0 := by
-  simp [cnt, List.countP_cons]
-
-theorem cnt_cons (u : Nat) (p : Pkt) (l : List Pkt) :
-    cnt u (p :: l) = cnt u l + (if p.uid = u then 1 else 0) := by
-  simp [cnt, List.countP_cons]
-
-def cntAll (u : Nat) (c : Chan) : Nat :=
-  cnt u c.unclaimed + cnt u c.repDone + cnt u c.repTodo + cnt u c.addDone + cnt u c.addTodo
-
-/-- per-channel invariant; `n` is the next unused packet id. -/
-structure MInv (c : Chan) (n : Nat) : Prop where
-  nd : ∀ u, cntAll u c ≤ 1
-  lt : ∀ u, n ≤ u → cntAll u c = 0
-  todo0 : ∀ u, 0 < cnt u c.unclaimed + cnt u c.repTodo + cnt u c.addTodo → c.got u = 0
-  le : ∀ u, c.got u ≤ 1
-  ackd : ∀ u, c.acked u = true → cntAll u c = 0
-  fresh : ∀ u, n ≤ u → c.got u = 0 ∧ c.acked u = false
-  gaa : ∀ u, c.gotAfterAck u = 0
-
-theorem minv_empty (n : Nat) : MInv Chan.empty n := by
-  constructor <;> simp [Chan.empty, cntAll, cnt]
-
-theorem minv_mono (c : Chan) (n : Nat) (h : MInv c n) : MInv c (n + 1) :=
-  ⟨h.nd, fun u hu => h.lt u (by omega), h.todo0, h.le, h.ackd, fun u hu => h.fresh u (by omega), h.gaa⟩
-
-/-! ### AddPacket -/
-
-theorem addPacket_spec (c : Chan) (p : Pkt) :
-    (addPacket c p).1.unclaimed = c.unclaimed ∧ (addPacket c p).1.repDone = c.repDone ∧
-    (addPacket c p).1.addDone = c.addDone ∧ (addPacket c p).1.got = c.got ∧
-    (addPacket c p).1.acked = c.acked ∧ (addPacket c p).1.gotAfterAck = c.gotAfterAck ∧
-    (addPacket c p).1.up = c.up ∧
-    ∀ u, cnt u (addPacket c p).1.repTodo + cnt u (addPacket c p).1.addTodo ≤
-           cnt u c.repTodo + cnt u c.addTodo + cnt u [p] ∧
-         cnt u c.repTodo ≤ cnt u (addPacket c p).1.repTodo ∧
-         cnt u c.addTodo ≤ cnt u (addPacket c p).1.addTodo := by
-  unfold addPacket
-  split
-  · split
-    · simp
-    · refine ⟨rfl, rfl, rfl, rfl, rfl, rfl, rfl, ?_⟩
-      intro u; simp only [cnt_append]; omega
-  · split
-    · simp
-    · refine ⟨rfl, rfl, rfl, rfl, rfl, rfl, rfl, ?_⟩
-      intro u; simp only [cnt_append]; omega
-
-theorem addPackets_spec (c : Chan) (l : List Pkt) :
-    (addPackets c l).unclaimed = c.unclaimed ∧ (addPackets c l).repDone = c.repDone ∧
-    (addPackets c l).addDone = c.addDone ∧ (addPackets c l).got = c.got ∧
-    (addPackets c l).acked = c.acked ∧ (addPackets c l).gotAfterAck = c.gotAfterAck ∧
-    (addPackets c l).up = c.up ∧
-    ∀ u, cnt u (addPackets c l).repTodo + cnt u (addPackets c l).addTodo ≤
-           cnt u c.repTodo + cnt u c.addTodo + cnt u l ∧
-         cnt u c.repTodo ≤ cnt u (addPackets c l).repTodo ∧
-         cnt u c.addTodo ≤ cnt u (addPackets c l).addTodo := by
-  induction l generalizing c with
-  | nil => simp [addPackets, cnt_nil]
-  | cons p rest ih =>
-    simp only [addPackets]
-    obtain ⟨a1, a2, a3, a4, a5, a6, a7, a8⟩ := addPacket_spec c p
-    obtain ⟨b1, b2, b3, b4, b5, b6, b7, b8⟩ := ih (addPacket c p).1
-    refine ⟨b1.trans a1, b2.trans a2, b3.trans a3, b4.trans a4, b5.trans a5, b6.trans a6,
-      b7.trans a7, ?_⟩
-    intro u
-    have := a8 u; have := b8 u
-    simp only [cnt_cons, cnt_nil] at *
-    omega
-
-/-! ### AckPacket -/
-
-theorem eraseKey_cnt (l : List Pkt) (k : Key) (p : Pkt) (h : findKey l k = some p) :
-    ∀ u, cnt u (eraseKey l k) + (if p.uid = u then 1 else 0) = cnt u l := by
-  induction l with
-  | nil => simp [findKey] at h
-  | cons q rest ih =>
-    intro u
-    simp only [findKey, List.find?_cons] at h
-    by_cases hq : q.inKey = k
-    · simp only [hq, decide_true] at h
-      injection h with h; subst h
-      simp only [eraseKey, List.eraseP_cons, hq, decide_true, cond_true, cnt_cons]
-    · simp only [hq, decide_false] at h
-      have := ih h u
-      simp only [eraseKey, List.eraseP_cons, hq, decide_false, cond_false, cnt_cons]
-      simp only [eraseKey] at this
-      omega
-
-/-- a successful ack removes exactly one packet `p` and marks it acked. -/
-theorem ackPacket_spec (c : Chan) (k : Key) :
-    ((ackPacket c k).2 = false ∧ (ackPacket c k).1 = c) ∨
-    ∃ p : Pkt, (ackPacket c k).2 = true ∧
-      (∀ u, cntAll u (ackPacket c k).1 + (if p.uid = u then 1 else 0) = cntAll u c) ∧
-      (∀ u, cnt u (ackPacket c k).1.unclaimed = cnt u c.unclaimed ∧
-            cnt u (ackPacket c k).1.repTodo ≤ cnt u c.repTodo ∧
-            cnt u (ackPacket c k).1.addTodo ≤ cnt u c.addTodo) ∧
-      (ackPacket c k).1.got = c.got ∧ (ackPacket c k).1.gotAfterAck = c.gotAfterAck ∧
-      (ackPacket c k).1.acked = upd c.acked p.uid true := by
-  unfold ackPacket
-  cases h1 : findKey c.repDone k with
-  | some p =>
-    right; refine ⟨p, rfl, ?_, ?_, rfl, rfl, rfl⟩
-    · intro u; have := eraseKey_cnt _ k p h1 u
-      simp only [cntAll, markAcked]; omega
-    · intro u; simp [markAcked]
-  | none =>
-  cases h2 : findKey c.repTodo k with
-  | some p =>
-    right; refine ⟨p, rfl, ?_, ?_, rfl, rfl, rfl⟩
-    · intro u; have := eraseKey_cnt _ k p h2 u
-      simp only [cntAll, markAcked]; omega
-    · intro u; have := eraseKey_cnt _ k p h2 u
-      simp only [markAcked]; refine ⟨trivial, by omega, Nat.le_refl _⟩
-  | none =>
-  cases h3 : findKey c.addDone k with
-  | some p =>
-    right; refine ⟨p, rfl, ?_, ?_, rfl, rfl, rfl⟩
-    · intro u; have := eraseKey_cnt _ k p h3 u
-      simp only [cntAll, markAcked]; omega
-    · intro u; simp [markAcked]
-  | none =>
-  cases h4 : findKey c.addTodo k with
-  | some p =>
-    right; refine ⟨p, rfl, ?_, ?_, rfl, rfl, rfl⟩
-    · intro u; have := eraseKey_cnt _ k p h4 u
-      simp only [cntAll, markAcked]; omega
-    · intro u; have := eraseKey_cnt _ k p h4 u
-      simp only [markAcked]; refine ⟨trivial, Nat.le_refl _, by omega⟩
-  | none => left; exact ⟨rfl, rfl⟩
-
-theorem minv_ack (c : Chan) (n : Nat) (k : Key) (h : MInv c n) : MInv (ackPacket c k).1 n := by
-  cases ackPacket_spec c k with
-  | inl hh => rw [hh.2]; exact h
-  | inr hh =>
-    obtain ⟨p, _, hc, hl, hg, hga, hak⟩ := hh
-    have hp1 : cntAll p.uid c = 1 := by
-      have := hc p.uid; have := h.nd p.uid; simp at *; omega
-    constructor
-    · intro u; have := hc u; have := h.nd u; omega
-    · intro u hu; have := hc u; have := h.lt u hu; omega
-    · intro u hu; rw [hg]; apply h.todo0; have := hl u; omega
-    · intro u; rw [hg]; exact h.le u
-    · intro u hu
-      rw [hak] at hu; simp only [upd_apply] at hu
-      by_cases e : u = p.uid
-      · subst e; have := hc p.uid; simp at this; omega
-      · simp only [e, if_false] at hu
-        have := hc u; have := h.ackd u hu; omega
-    · intro u hu
-      rw [hg, hak]; simp only [upd_apply]
-      have hne : u ≠ p.uid := by
-        intro e; subst e; have := h.lt p.uid hu; omega
-      simp only [hne, if_false]; exact h.fresh u hu
-    · intro u; rw [hga]; exact h.gaa u
-
-/-! ### the link receives -/
-
-theorem minv_drain (c : Chan) (n : Nat) (h : MInv c n) : MInv (drain c).1 n := by
-  unfold drain
-  split
-  · constructor
-    · intro u; have := h.nd u
-      simp only [cntAll, noteGot, cnt_append, cnt_nil] at *; omega
-    · intro u hu; have := h.lt u hu
-      simp only [cntAll, noteGot, cnt_append, cnt_nil] at *; omega
-    · intro u hu
-      simp only [noteGot, cnt_append, cnt_nil] at *
-      have := h.nd u; have := h.todo0 u (by omega)
-      simp only [cntAll] at *; omega
-    · intro u
-      simp only [noteGot, cnt_append]
-      have := h.nd u; have := h.le u
-      simp only [cntAll] at *
-      by_cases hz : 0 < cnt u c.repTodo + cnt u c.addTodo
-      · have := h.todo0 u (by omega); omega
-      · omega
-    · intro u hu
-      simp only [noteGot] at hu
-      have := h.ackd u hu
-      simp only [cntAll, noteGot, cnt_append, cnt_nil] at *; omega
-    · intro u hu
-      simp only [noteGot, cnt_append]
-      have := h.lt u hu; have := h.fresh u hu
-      simp only [cntAll] at *
-      exact ⟨by omega, this.2⟩
-    · intro u
-      simp only [noteGot, cnt_append]
-      have := h.gaa u
-      split
-      · rename_i ha; have := h.ackd u ha; simp only [cntAll] at *; omega
-      · omega
-  · exact h
-
-theorem minv_reset (c : Chan) (n : Nat) (h : MInv c n) : MInv (resetPkts c) n := by
-  constructor
-  · intro u; have := h.nd u
-    simp only [cntAll, resetPkts, cnt_append, cnt_nil] at *; omega
-  · intro u hu; have := h.lt u hu
-    simp only [cntAll, resetPkts, cnt_append, cnt_nil] at *; omega
-  · intro u hu
-    simp only [resetPkts, cnt_append] at *
-    split
-    · rfl
-    · apply h.todo0; omega
-  · intro u; simp only [resetPkts]; split
-    · omega
-    · exact h.le u
-  · intro u hu
-    simp only [resetPkts] at hu
-    have := h.ackd u hu
-    simp only [cntAll, resetPkts, cnt_append, cnt_nil] at *; omega
-  · intro u hu
-    simp only [resetPkts]
-    have := h.fresh u hu
-    refine ⟨?_, this.2⟩
-    split
-    · rfl
-    · exact this.1
-  · intro u; exact h.gaa u
-
-/-! ### Deliver / BindLiveShortChanID -/
-
-theorem minv_addPackets (c : Chan) (l : List Pkt) (n : Nat)
-    (hnd : ∀ u, cntAll u c + cnt u l ≤ 1) (hlt : ∀ u, n ≤ u → cntAll u c + cnt u l = 0)
-    (htodo : ∀ u, 0 < cnt u c.unclaimed + cnt u c.repTodo + cnt u c.addTodo + cnt u l → c.got u = 0)
-    (hle : ∀ u, c.got u ≤ 1) (hack : ∀ u, c.acked u = true → cntAll u c + cnt u l = 0)
-    (hfresh : ∀ u, n ≤ u → c.got u = 0 ∧ c.acked u = false) (hgaa : ∀ u, c.gotAfterAck u = 0) :
-    MInv (addPackets c l) n := by
-  obtain ⟨b1, b2, b3, b4, b5, b6, _, b8⟩ := addPackets_spec c l
-  constructor
-  · intro u; have := hnd u; have := b8 u
-    simp only [cntAll, b1, b2, b3] at *; omega
-  · intro u hu; have := hlt u hu; have := b8 u
-    simp only [cntAll, b1, b2, b3] at *; omega
-  · intro u hu; rw [b4]; apply htodo; have := b8 u
-    simp only [b1] at hu; omega
-  · intro u; rw [b4]; exact hle u
-  · intro u hu; rw [b5] at hu; have := hack u hu; have := b8 u
-    simp only [cntAll, b1, b2, b3] at *; omega
-  · intro u hu; rw [b4, b5]; exact hfresh u hu
-  · intro u; rw [b6]; exact hgaa u
-
-theorem minv_bind (c : Chan) (n : Nat) (h : MInv c n) : MInv (bindChan c) n := by
-  unfold bindChan
-  apply minv_addPackets
-  · intro u; have := h.nd u; simp only [cntAll, cnt_nil] at *; omega
-  · intro u hu; have := h.lt u hu; simp only [cntAll, cnt_nil] at *; omega
-  · intro u hu; apply h.todo0; simp only [cnt_nil] at hu; omega
-  · exact h.le
-  · intro u hu; have := h.ackd u hu; simp only [cntAll, cnt_nil] at *; omega
-  · exact h.fresh
-  · exact h.gaa
-
-theorem minv_deliver (c : Chan) (n : Nat) (k : Key) (t : Nat) (h : MInv c n) :
-    MInv (deliverChan c ⟨n, k, t⟩).1 (n + 1) := by
-  have hn0 : cntAll n c = 0 := h.lt n (Nat.le_refl _)
-  have hfr := h.fresh n (Nat.le_refl _)
-  unfold deliverChan
-  split
-  · -- live: AddPacket of one packet = addPackets of a singleton
-    have : (addPacket { c with hasBox := true } ⟨n, k, t⟩).1
-        = addPackets { c with hasBox := true } [⟨n, k, t⟩] := rfl
-    rw [this]
-    apply minv_addPackets
-    · intro u; have := h.nd u; simp only [cntAll, cnt_single] at *
-      split
-      · rename_i e; subst e; omega
-      · omega
-    · intro u hu; have := h.lt u (by omega); simp only [cntAll, cnt_single] at *
-      have : ¬ n = u := by omega
-      simp only [this, if_false]; omega
-    · intro u hu; simp only [cnt_single] at hu
-      by_cases e : n = u
-      · subst e; exact hfr.1
-      · simp only [e, if_false] at hu; apply h.todo0; omega
-    · exact h.le
-    · intro u hu; have := h.ackd u hu; simp only [cntAll, cnt_single] at *
-      have : ¬ n = u := by intro e; subst e; rw [hfr.2] at hu; cases hu
-      simp only [this, if_false]; omega
-    · intro u hu; exact h.fresh u (by omega)
-    · exact h.gaa
-  · constructor
-    · intro u; have := h.nd u; simp only [cntAll, cnt_append, cnt_single] at *
-      split
-      · rename_i e; subst e; omega
-      · omega
-    · intro u hu; have := h.lt u (by omega); simp only [cntAll, cnt_append, cnt_single] at *
-      have : ¬ n = u := by omega
-      simp only [this, if_false]; omega
-    · intro u hu; simp only [cnt_append, cnt_single] at hu
-      by_cases e : n = u
-      · subst e; exact hfr.1
-      · simp only [e, if_false] at hu; apply h.todo0; omega
-    · exact h.le
-    · intro u hu; have := h.ackd u hu; simp only [cntAll, cnt_append, cnt_single] at *
-      have : ¬ n = u := by intro e; subst e; rw [hfr.2] at hu; cases hu
-      simp only [this, if_false]; omega
-    · intro u hu; exact h.fresh u (by omega)
-    · exact h.gaa
-
-/-! ### all operations -/
-
-theorem minv_chanStep (c : Chan) (n : Nat) (op : MOp) (h : MInv c n) :
-    MInv (chanStep c n op).1 (n + 1) := by
-  cases op with
-  | deliver s k t => exact minv_drain _ _ (minv_deliver c n k t h)
-  | getBox s =>
-    exact minv_mono _ _ ⟨h.nd, h.lt, h.todo0, h.le, h.ackd, h.fresh, h.gaa⟩
-  | linkUp s =>
-    apply minv_mono
-    apply minv_drain
-    have hr := minv_reset _ n (minv_bind c n h)
-    exact ⟨hr.nd, hr.lt, hr.todo0, hr.le, hr.ackd, hr.fresh, hr.gaa⟩
-  | linkDown s =>
-    exact minv_mono _ _ ⟨h.nd, h.lt, h.todo0, h.le, h.ackd, h.fresh, h.gaa⟩
-  | reset s => exact minv_mono _ _ (minv_drain _ _ (minv_reset c n h))
-  | ack s k => exact minv_mono _ _ (minv_ack c n k h)
-  | restart => exact minv_empty _
-
-theorem minv_step (s : MState) (op : MOp) (h : ∀ sid, MInv (s.chans sid) s.next) :
-    ∀ sid, MInv ((mstep s op).1.chans sid) (mstep s op).1.next := by
-  intro sid
-  unfold mstep
-  cases ho : op.sid? with
-  | none => exact minv_empty _
-  | some t =>
-    simp only [upd_apply]
-    by_cases e : sid = t
-    · subst e; simp only [if_true]; exact minv_chanStep _ _ op (h sid)
-    · simp only [e, if_false]; exact minv_mono _ _ (h sid)
-
-theorem minv_run (s : MState) (ops : List MOp) (h : ∀ sid, MInv (s.chans sid) s.next) :
-    ∀ sid, MInv ((mrun s ops).chans sid) (mrun s ops).next := by
-  induction ops generalizing s with
-  | nil => exact h
-  | cons op rest ih => exact ih _ (minv_step s op h)
 
 /-- **delivered_at_most_once_per_bind_history.** Along ANY history of deliveries (to live or not yet
     registered links), mailbox creations, link starts (`BindLiveShortChanID` ; `ResetPackets` ;
